@@ -113,9 +113,9 @@ func (s *Service) HandleMessage(ctx context.Context, conn ReadWriterContext, req
 
 // Shutdown shuts down the listener of a running service.
 func (s *Service) Shutdown() error {
-	s.running = false
 	s.mutex.Lock()
 	defer s.mutex.Unlock()
+	s.running = false
 	if s.listener == nil {
 		return nil
 	}
@@ -143,6 +143,12 @@ func (s *Service) handleConnection(ctx context.Context, conn net.Conn, wg *sync.
 	}
 
 	conn.Close()
+}
+
+func (s *Service) isRunning() bool {
+	s.mutex.Lock()
+	defer s.mutex.Unlock()
+	return s.running
 }
 
 func (s *Service) teardown() {
@@ -268,7 +274,7 @@ func (s *Service) Listen(ctx context.Context, address string, timeout time.Durat
 	l := s.listener
 	s.mutex.Unlock()
 
-	for s.running {
+	for s.isRunning() {
 		if timeout != 0 {
 			if err := s.refreshTimeout(timeout); err != nil {
 				return err
@@ -285,7 +291,7 @@ func (s *Service) Listen(ctx context.Context, address string, timeout time.Durat
 				s.mutex.Unlock()
 				continue
 			}
-			if !s.running {
+			if !s.isRunning() {
 				return nil
 			}
 			return err
@@ -317,7 +323,7 @@ func (s *Service) DoListen(ctx context.Context, timeout time.Duration) error {
 	s.running = true
 	s.mutex.Unlock()
 
-	for s.running {
+	for s.isRunning() {
 		if timeout != 0 {
 			if err := s.refreshTimeout(timeout); err != nil {
 				return err
@@ -334,7 +340,7 @@ func (s *Service) DoListen(ctx context.Context, timeout time.Duration) error {
 				s.mutex.Unlock()
 				continue
 			}
-			if !s.running {
+			if !s.isRunning() {
 				return nil
 			}
 			return err
@@ -352,6 +358,8 @@ func (s *Service) DoListen(ctx context.Context, timeout time.Duration) error {
 // RegisterInterface registers a varlink.Interface containing struct to the Service
 func (s *Service) RegisterInterface(iface dispatcher) error {
 	name := iface.VarlinkGetName()
+	s.mutex.Lock()
+	defer s.mutex.Unlock()
 	if _, ok := s.interfaces[name]; ok {
 		return fmt.Errorf("interface '%s' already registered", name)
 	}
